@@ -207,7 +207,19 @@ func HarnessC16Perm(n, conv int) {
 		}
 		found = true
 		for i := range labels {
-			vnAssert(ex.Recv[i].T == labels[i].T && ex.Recv[i].ID == w.Vals[i].ID, "C16.permutation-injects-the-same-values")
+			if labels[i].Name != "" {
+				vnAssert(ex.Recv[i].T == labels[i].T && ex.Recv[i].ID == w.Vals[i].ID, "C16.permutation-injects-the-same-values")
+				continue
+			}
+			// a type-only parameter may receive any supplied value of exactly its type (C03),
+			// whatever the option order
+			ok := false
+			for _, v := range w.Vals {
+				if v.L.T == labels[i].T && ex.Recv[i].T == labels[i].T {
+					ok = vnOr(ok, ex.Recv[i].ID == v.ID)
+				}
+			}
+			vnAssert(ok, "C16.permutation-injects-a-supplied-value-of-the-type")
 		}
 	}
 	vnAssert(found, "C16.permutation-target-ran")
